@@ -773,22 +773,26 @@ def translate(src, qual, cfg, inputs, outputs, bound=(), this="return"):
         part = None
         if sel.endswith("#re") or sel.endswith("#im"):
             sel, part = sel[:-3], sel[-2:]
-        if sel == "return" or sel.startswith("return."):
+        tag = None
+        if "@" in sel:
+            sel, tag = sel.split("@", 1)
+        elif sel.startswith("return."):
+            sel, tag = "return", sel[len("return."):]
+        if sel == "return":
             if ret is None:
                 raise TranslationError("%s: no return on the selected path" % run.src_name)
             ir = ret
-            if sel != "return":
-                tag = sel[len("return."):]
-                if ir[0] != "tuple":
-                    raise TranslationError("%s: return value is not a tuple" % run.src_name)
-                m = [x for t, x in ir[1] if t == tag]
-                if len(m) != 1:
-                    raise TranslationError("%s: no component %s in the return value" % (run.src_name, tag))
-                ir = m[0]
         else:
             if sel not in env or isinstance(env[sel], Alias):
                 raise TranslationError("%s: variable %s is not assigned on the selected path" % (run.src_name, sel))
             ir = env[sel]
+        if tag is not None:
+            if ir[0] != "tuple":
+                raise TranslationError("%s: %s is not a tuple / keyed sum" % (run.src_name, sel))
+            m = [x for t, x in ir[1] if t == tag]
+            if len(m) != 1:
+                raise TranslationError("%s: no unique component %s in %s" % (run.src_name, tag, sel))
+            ir = m[0]
         if part is not None:
             ir = c_real(ir) if part == "re" else c_imag(ir)
         elif ir[0] == "cx":
